@@ -10,6 +10,8 @@ From PV Require Import Extract.RunC06.
 From PV Require Import Extract.RunC20.
 From PV Require Import Extract.RunC15.
 From PV Require Import Extract.RunC18.
+From PV Require Import Extract.RunC16.
+From PV Require Import Extract.RunC14.
 From PV Require Import Extract.RunC07.
 Import ListNotations.
 Local Open Scope N_scope.
@@ -114,5 +116,12 @@ Definition run (cmd : N) (arg : sx) : sx :=
   | 71 => run_c07_sort arg
   | 180 => run_c18_parse arg
   | 181 => run_c18_checks arg
+  | 160 => run_c16_build arg
+  | 161 => run_c16_unsorted arg
+  | 162 => run_c16_keys arg
+  | 140 => run_c14_0 arg
+  | 141 => run_c14_1 arg
+  | 142 => run_c14_2 arg
+  | 143 => run_c14_3 arg
   | _ => L [A 999999]
   end.
